@@ -198,6 +198,7 @@ class RefEVM:
 
     def explore(self, st0: State):
         ends, work = [], [st0]
+        self.extra_ends = []
         while work:
             st = work.pop()
             try:
@@ -210,7 +211,7 @@ class RefEVM:
                 ends.append(End(f"unsupported:{e}", [], st.rc, st.assumptions, st, st.taint))
             if len(ends) + len(work) > self.max_paths:
                 raise Unsupported("path explosion in reference")
-        return ends
+        return [e for e in ends if e.kind != "dropped"] + self.extra_ends
 
     # ---- helpers -----------------------------------------------------------
     def _int(self, t, what):
@@ -312,6 +313,8 @@ class RefEVM:
                 raise e
             return self._exec(st, f, work)
         except Halt as h:
+            if h.kind == "assume-false":  # vm.assume(false) / no continuation: the path is dropped
+                return End("dropped", [], st.rc, st.assumptions, st, st.taint)
             return self.frame_end(st, h.kind, h.data, work)
 
     def _pop(self, f: Frame, n=1):
@@ -660,9 +663,36 @@ class RefEVM:
         # prank (cheatcode layer) may override the apparent sender
         sender_word, origin_override = bv(f.address), None
         to_c = conc(to)
+        sym_to160 = None
         if to_c is None:
-            raise Unsupported("symbolic CALL target")
-        to_c &= (1 << 160) - 1
+            # symbolic target: one continuation per known account (re-executing this call with the concrete address),
+            # and this state continues for "any other address", which has no code.  Precompile / cheatcode addresses
+            # are excluded by assumption (documented: symbolic targets are user accounts).
+            to160 = self.addr160(to)
+            rest = []
+            for a in sorted(st.accounts):
+                ca = to160 == bv(a, 160)
+                rest.append(to160 != bv(a, 160))
+                if self.feasible(st, ca) != "unsat":
+                    other = st.fork()
+                    other.rc.append(ca)
+                    of = other.frames[-1]
+                    # restore the operands of this call with a concrete target
+                    vals = [bv(out_size), bv(out_off), bv(in_size), bv(in_off)]
+                    if op in (0xF1, 0xF2):
+                        vals.append(value)
+                    vals += [bv(a), bv(0)]
+                    of.stack.extend(vals)
+                    work.append(other)
+            st.rc.extend(rest)
+            for sp in list(range(1, 11)) + [HEVM_ADDR, SVM_ADDR, CONSOLE_ADDR]:
+                st.assumptions.append(to160 != bv(sp, 160))
+            if self.feasible(st, z3.BoolVal(True)) == "unsat":
+                raise Unsupported("infeasible path reached")
+            sym_to160 = to160
+            to_c = -1
+        else:
+            to_c &= (1 << 160) - 1
         is_cheat = to_c in (HEVM_ADDR, SVM_ADDR, CONSOLE_ADDR)
         if self.cheat is not None and not is_cheat:
             sender_word, origin_override = self.cheat.consume_prank(st, f, sender_word)
@@ -700,7 +730,7 @@ class RefEVM:
 
         snap = self.snapshot(st)
         if op == 0xF1 and vz != 0:
-            self.transfer(st, sender160, bv(to_c, 160), value)
+            self.transfer(st, sender160, sym_to160 if sym_to160 is not None else bv(to_c, 160), value)
 
         # cheatcodes
         if is_cheat:
